@@ -1294,9 +1294,11 @@ class PyFat(object):
             self.__fp.write(bytes(fsinfo))
 
         self.parse_root_dir()
+        # The label entry holds the 11 characters as given (blanks are
+        # significant), it is not an 8.3 file name
         vol_label_in_8_3 = EightDotThree(encoding=self.encoding)
-        vol_label_in_8_3.set_str_name(
-            EightDotThree.make_8dot3_name(label[:11], self.root_dir))
+        vol_label_in_8_3.set_byte_name(
+            label[:11].upper().ljust(11).encode(self.encoding))
         volume_file = FATDirectoryEntry.new(
             name=vol_label_in_8_3,
             tz=datetime.timezone.utc,
